@@ -140,6 +140,12 @@ impl VirtualAddressSpace {
     pub fn total_inserted(&self) -> usize {
         self.inserted
     }
+
+    /// (inserted, dropped, delta)
+    #[cfg(hyperium_h3_verif)]
+    pub fn verif_counters(&self) -> (usize, usize, usize) {
+        (self.inserted, self.dropped, self.delta)
+    }
 }
 
 #[cfg(test)]
